@@ -9,6 +9,55 @@ import traceback
 from . import common
 
 
+def _kill_descendants():
+    """worker and model processes of this run must not outlive it"""
+    import signal
+    parents = {}
+    for d in os.listdir("/proc"):
+        if d.isdigit():
+            try:
+                with open(f"/proc/{d}/stat") as fh:
+                    parents[int(d)] = int(fh.read().rsplit(")", 1)[1].split()[1])
+            except OSError:
+                pass
+    me, todo, victims = os.getpid(), [os.getpid()], []
+    while todo:
+        x = todo.pop()
+        for pid, pp in parents.items():
+            if pp == x and pid != me:
+                victims.append(pid)
+                todo.append(pid)
+    for pid in victims:
+        try:
+            os.kill(pid, signal.SIGKILL)
+        except OSError:
+            pass
+
+
+def _watchdog(prop, tier):
+    """a check never hangs: if the run is not over after many times its normal duration, the tool is stuck on some input of this run (outside the
+    guarded worker pools).  That is reported as a violation without a minimal input - the stack of every thread goes into the replay file - and the
+    process ends."""
+    import faulthandler
+    import threading
+    limit = int(os.environ.get("VERIF_WATCHDOG_S", "2400" if tier == "quick" else "21600"))
+
+    def fire():
+        path = common.VERIF / "replays" / f"{prop}-watchdog.json"
+        path.parent.mkdir(exist_ok=True)
+        dump = common.VERIF / "replays" / f"{prop}-watchdog.stacks.txt"
+        with open(dump, "w") as fh:
+            faulthandler.dump_traceback(file=fh, all_threads=True)
+        path.write_text(json.dumps({"kind": "check-did-not-finish", "property": prop, "tier": tier, "limit_s": limit, "stacks": str(dump.relative_to(common.VERIF)),
+                                    "note": "the run did not finish within the limit: the tool does not answer on some input of this run; the stacks show where"}, indent=1))
+        print(f"VIOLATION property={prop} replay={path.relative_to(common.VERIF)} no-failing-input-found", flush=True)
+        _kill_descendants()
+        os._exit(1)
+    t = threading.Timer(limit, fire)
+    t.daemon = True
+    t.start()
+
+
 def main():
     ap = argparse.ArgumentParser()
     ap.add_argument("prop")
@@ -25,6 +74,7 @@ def main():
         if a.replay:
             payload = json.loads(open(a.replay).read())
             return mod.replay(payload)
+        _watchdog(a.prop, a.tier)
         return mod.run(a.tier, seed)
     except Exception:
         traceback.print_exc()
